@@ -309,7 +309,7 @@ def obligations(tier, seed):
         levels = common.levels_for(G, tier, cap_quick=3)
         for level in (levels if tier == 'thorough' else levels[:2] + levels[-1:]):
             specs.append(spec(MOD, 'Mosaic', 'mosaic/%s/L%d' % (gname, level), cfg=dict(grid=gname, level=level, max_spans=2.5 if tier == 'thorough' else 1.6), cost=40))
-            if level <= 12:   # deeper levels: the chained level-choice + tile arithmetic exceeds the per-query solver budget
+            if level <= 10:   # deeper levels: the chained level-choice + tile arithmetic exceeds the per-query solver budget
                 specs.append(spec(MOD, 'SingleTile', 'single-tile-unresampled/%s/L%d' % (gname, level), cfg=dict(grid=gname, level=level), cost=3))
             if G.supports_access_with_origin('nw'):
                 specs.append(spec(MOD, 'FeatureInfoPoint', 'feature-info/%s/L%d' % (gname, level), cfg=dict(grid=gname, level=level), cost=5))
